@@ -155,3 +155,29 @@ def relayout(x: np.ndarray, layout: str) -> np.ndarray:
         sl = tuple(slice(None, None, -1) for _ in x.shape)
         return np.ascontiguousarray(x[sl])[sl]
     raise ValueError(layout)
+
+
+# ---------------------------------------------------------------- reader re-use
+@st.composite
+def prior_use(draw, n):
+    """What was done with the reader object before the call under test: nothing (half of the time), or 1-2 valid
+    earlier uses - a block read, a complete read plan, or a read plan abandoned after a few blocks.  A reader that
+    has been used is a legitimate input of every reader method; its answer must be that of a fresh reader."""
+    ops = []
+    for _ in range(draw(st.sampled_from([0, 0, 1, 2]))):
+        s = draw(st.integers(0, n - 1))
+        m = draw(st.integers(1, n - s))
+        ops.append({"kind": draw(st.sampled_from(["read_block", "abandon_plan", "full_plan"])), "start": s, "nsamps": m,
+                    "gulp": draw(st.integers(1, m)), "blocks": draw(st.integers(1, 3))})
+    return ops
+
+
+def apply_prior_use(rd, ops):
+    for op in ops or ():
+        if op["kind"] == "read_block":
+            rd.read_block(op["start"], op["nsamps"])
+            continue
+        for i, _ in enumerate(rd.read_plan(gulp=op["gulp"], start=op["start"], nsamps=op["nsamps"], quiet=True, description="v")):
+            if op["kind"] == "abandon_plan" and i + 1 >= op["blocks"]:
+                break
+    return rd
